@@ -42,6 +42,19 @@ func c10Batches(shape string) [][]map[string]any {
 		return [][]map[string]any{{{"id": "a", "p": "p1"}, {"id": "b", "p": "p2"}, {"id": "c", "p": "p3"}}, {{"id": "d", "p": "p4"}}}
 	case "oversized":
 		return [][]map[string]any{{{"id": "a", "p": "x"}}, {{"id": "big", "p": "x", "v": big}}}
+	case "seq3", "seq4", "seq5", "seq4-alt":
+		// single-row batches in a row: a limit flush in the middle leaves a younger batch
+		// behind that only the time trigger can flush
+		n := int(shape[3] - '0')
+		var out [][]map[string]any
+		for i := 0; i < n; i++ {
+			part := "x"
+			if shape == "seq4-alt" && i%2 == 1 {
+				part = "y"
+			}
+			out = append(out, []map[string]any{{"id": fmt.Sprintf("s%d", i), "p": part}})
+		}
+		return out
 	case "mixed":
 		return [][]map[string]any{{{"id": "a", "p": "x"}}, {}, {{"id": "bad", "f": func() {}}}, {{"id": "b", "p": "y"}}}
 	}
@@ -171,17 +184,18 @@ func c10Root(p c10p) func() {
 func init() {
 	Registry["C10"] = func(tier string) []Scenario {
 		var ps []c10p
-		shapes := []string{"single", "two-same", "two-parts", "many-parts", "oversized", "mixed"}
+		shapes := []string{"single", "two-same", "two-parts", "many-parts", "oversized", "mixed", "seq3", "seq4", "seq5", "seq4-alt"}
 		limits := [][4]int{{0, 0, 0, 0}, {2, 0, 0, 0}, {0, 60, 0, 0}, {0, 0, 2, 0}, {0, 0, 0, 60}, {3, 0, 2, 0}, {2, 400, 3, 300}}
 		times := []time.Duration{10 * time.Millisecond, 100 * time.Millisecond, 250 * time.Millisecond}
 		gaps := []time.Duration{0, 50 * time.Millisecond}
+		if tier == "thorough" {
+			gaps = append(gaps, 120*time.Millisecond)
+		}
 		for si, sh := range shapes {
 			for li, l := range limits {
 				for ti, t := range times {
 					for gi, g := range gaps {
-						if tier == "quick" && (si+li+ti+gi)%3 != 0 {
-							continue
-						}
+						_, _, _, _ = si, li, ti, gi
 						ps = append(ps, c10p{l[0], l[1], l[2], l[3], t, sh, g})
 					}
 				}
